@@ -761,13 +761,17 @@ class XMLConverter(PDFConverter[AnyIO]):
     def write_text(self, text: str) -> None:
         if self.stripcontrol:
             text = self.CONTROL.sub("", text)
-        self.write(enc(text))
+        # a conforming XML reader turns a literal CR into LF
+        self.write(enc(text).replace("\r", "&#13;"))
 
     def attr(self, text: str) -> str:
         """Escape a name taken from the document for use as an attribute value."""
         if self.stripcontrol:
             text = self.CONTROL.sub("", text)
-        return enc(text)
+        # a conforming XML reader turns literal TAB, LF and CR of an attribute
+        # value into spaces
+        text = enc(text).replace("\t", "&#9;").replace("\n", "&#10;")
+        return text.replace("\r", "&#13;")
 
     def receive_layout(self, ltpage: LTPage) -> None:
         def show_group(item: LTItem) -> None:
